@@ -11,7 +11,7 @@
                  r = requests.get(URL)                                            # CGet
                  r.raise_for_status()                                             # CStatus
                  self.latest_version = version.parse(r.json().get("tag_name"))    # CJson, CTag, CParse, CAssign
-             except requests.exceptions.RequestException:
+             except Exception:                                                    # (repaired, see below)
                  self.finished = True                                             # CHandler
          needs_update:  if not self.latest_version: return False
                         return latest > version.parse(ascmhl_tool_version) and not latest.is_devrelease
@@ -27,6 +27,19 @@
    RETURNED by the sub-command; a ClickException (all ascmhl error exits), a usage error, ctx.exit() (--help,
    --version), sys.exit or any other exception leaves `invoke` before the callback; after the callback main() calls
    ctx.exit() = exit status 0.  Interpreter shutdown does not wait for daemon threads.
+
+   History.  The pinned code caught only requests.exceptions.RequestException: an answer whose tag_name was missing,
+   null, not a string or not a version ("nightly"), a JSON body that was not an object, or a non-requests exception
+   from requests.get ended the thread with an unhandled exception; while threading.excepthook was writing the traceback
+   the thread held the lock of sys.stderr's buffer, and a main thread that shut the interpreter down at that moment
+   (it joins the checker only after a normal return of the sub-command, and only for `timeout` seconds) made CPython
+   abort ("Fatal Python error: _enter_buffered_busy ... at interpreter shutdown, possibly due to daemon threads"):
+   exit status 134 instead of the command's own (found by the C20 harness; e.g. `ascmhl info <folder without
+   history>`: 134 instead of 30 in 5-20% of the runs).  The commit "fix: the update check swallows every exception of
+   the checker thread" widened the clause to `except Exception`; this file models the repaired code, and
+   Props/C20.v carries the obligation `update_caught_exception = "Exception"` on the regenerated constant.
+   (BaseExceptions that are not Exceptions -- KeyboardInterrupt, SystemExit raised inside requests.get -- are outside
+   the model.)
 
    External behaviour enters as DATA of a configuration: what the server does and when (`server`), what
    packaging.version.parse made of the tag text (`TagText (Some v)` / `TagText None`), the installed version
@@ -142,7 +155,7 @@ Inductive tag_value :=
 Inductive json_body := JNonDict | JDict (t : tag_value).
 Inductive reply :=
   | RRequestExc                                 (* requests.get raises a RequestException (refused, DNS, timeout ...) *)
-  | ROtherExc                                   (* requests.get raises anything else *)
+  | ROtherExc                                   (* requests.get raises any other Exception *)
   | RResponse (status_ok : bool) (body : option json_body).   (* body None = not JSON *)
 Record server := mkServer {
   s_after : option N;                           (* ms after start at which requests.get comes back; None = never *)
@@ -178,12 +191,9 @@ Inductive cpc :=                                (* checker thread *)
   | CTag (j : json_body)                        (* .get("tag_name") *)
   | CParse (t : tag_value)                      (* version.parse(...) *)
   | CAssign (v : version)                       (* self.latest_version = ... *)
-  | CHandler                                    (* except RequestException: self.finished = True *)
+  | CHandler                                    (* except Exception: self.finished = True *)
   | CFinish                                     (* run(): self.finished = True *)
-  | CDone                                       (* run() returned *)
-  | CDying                                      (* run() left by an exception: threading.excepthook is writing the
-                                                   traceback and holds the lock of sys.stderr's buffer *)
-  | CDead.                                      (* ... traceback written, thread ended *)
+  | CDone.                                      (* run() returned: the only way the thread ends *)
 
 Inductive mpc :=                                (* main thread *)
   | MRun (rest : list cstep)                    (* parsing + the sub-command *)
@@ -194,7 +204,7 @@ Inductive mpc :=                                (* main thread *)
   | MExit (code : N).                           (* interpreter exits with this status *)
 
 Inductive oev := OChunk (c : N) | ONotice.                (* standard output *)
-Inductive eev := ECheckerTraceback | EMainTraceback | EFatalShutdown.   (* standard error (tracebacks only) *)
+Inductive eev := EMainTraceback.                          (* standard error: tracebacks only (the checker writes none) *)
 
 Record state := mkState {
   s_main : mpc;
@@ -209,7 +219,7 @@ Record state := mkState {
 Definition init (k : config) : state :=
   mkState (MRun (c_steps (k_cmd k))) CGet PNone false 0 0 [] [].
 
-Definition chk_terminated (c : cpc) : bool := match c with CDone | CDead => true | _ => false end.
+Definition chk_terminated (c : cpc) : bool := match c with CDone => true | _ => false end.
 
 (* the process is gone: main thread exited and no non-daemon thread is left *)
 Definition process_over (k : config) (s : state) : bool :=
@@ -224,20 +234,6 @@ Definition set_chk (s : state) (c : cpc) : state :=
   mkState (s_main s) c (s_latest s) (s_finished s) (s_now s) (s_delay s) (s_out s) (s_err s).
 Definition set_main (s : state) (m : mpc) : state :=
   mkState m (s_chk s) (s_latest s) (s_finished s) (s_now s) (s_delay s) (s_out s) (s_err s).
-Definition chk_die (s : state) : state := set_chk s CDying.
-
-(* interpreter shutdown (CPython 3.12, Py_FinalizeEx -> flush_std_files): daemon threads are not waited for and can
-   no longer run; if one of them still holds the lock of sys.stderr's BufferedWriter the flush fails with
-   "Fatal Python error: _enter_buffered_busy: could not acquire lock for <_io.BufferedWriter name='<stderr>'> at
-   interpreter shutdown, possibly due to daemon threads" and the process is ended by abort(): status 128+SIGABRT.
-   (Observed on the real tool -- this is the known finding of C20; stdout has been flushed before.) *)
-Definition abort_status : N := 134.
-Definition holds_stderr (c : cpc) : bool := match c with CDying => true | _ => false end.
-Definition shutdown (k : config) (s : state) (code : N) (err : list eev) : state :=
-  if k_daemon k && holds_stderr (s_chk s)
-  then mkState (MExit abort_status) (s_chk s) (s_latest s) (s_finished s) (s_now s) (s_delay s) (s_out s) (err ++ [EFatalShutdown])
-  else mkState (MExit code) (s_chk s) (s_latest s) (s_finished s) (s_now s) (s_delay s) (s_out s) err.
-
 Definition step_chk (k : config) (s : state) : option state :=
   match s_chk s with
   | CGet =>
@@ -247,27 +243,25 @@ Definition step_chk (k : config) (s : state) : option state :=
           if t <=? s_now s then
             match s_reply (k_server k) with
             | RRequestExc => Some (set_chk s CHandler)
-            | ROtherExc => Some (chk_die s)
+            | ROtherExc => Some (set_chk s CHandler)                       (* except Exception *)
             | RResponse ok b => Some (set_chk s (CStatus ok b))
             end
           else None                                                        (* still blocked *)
       end
-  | CStatus ok b => Some (set_chk s (if ok then CJson b else CHandler))    (* HTTPError is a RequestException *)
-  | CJson None => Some (set_chk s CHandler)                                (* requests' JSONDecodeError is a RequestException *)
+  | CStatus ok b => Some (set_chk s (if ok then CJson b else CHandler))    (* HTTPError *)
+  | CJson None => Some (set_chk s CHandler)                                (* requests' JSONDecodeError *)
   | CJson (Some j) => Some (set_chk s (CTag j))
-  | CTag JNonDict => Some (chk_die s)                                      (* AttributeError: no .get *)
+  | CTag JNonDict => Some (set_chk s CHandler)                             (* AttributeError: no .get *)
   | CTag (JDict t) => Some (set_chk s (CParse t))
   | CParse (TagText (Some v)) => Some (set_chk s (CAssign v))
-  | CParse _ => Some (chk_die s)                                           (* TypeError / InvalidVersion *)
+  | CParse _ => Some (set_chk s CHandler)                                  (* TypeError / InvalidVersion *)
   | CAssign v =>
       Some (mkState (s_main s) CFinish (PVer v) (s_finished s) (s_now s) (s_delay s) (s_out s) (s_err s))
   | CHandler =>
       Some (mkState (s_main s) CFinish (s_latest s) true (s_now s) (s_delay s) (s_out s) (s_err s))
   | CFinish =>
       Some (mkState (s_main s) CDone (s_latest s) true (s_now s) (s_delay s) (s_out s) (s_err s))
-  | CDying =>
-      Some (mkState (s_main s) CDead (s_latest s) (s_finished s) (s_now s) (s_delay s) (s_out s) (s_err s ++ [ECheckerTraceback]))
-  | CDone | CDead => None
+  | CDone => None
   end.
 
 Definition step_main (k : config) (s : state) : option state :=
@@ -279,7 +273,7 @@ Definition step_main (k : config) (s : state) : option state :=
   | MRun [] =>
       match c_end (k_cmd k) with
       | Returns => Some (set_main s MJoin)                                 (* result callback *)
-      | Raises c => Some (shutdown k s c (s_err s))                        (* callback skipped *)
+      | Raises c => Some (set_main s (MExit c))                            (* callback skipped *)
       end
   | MJoin =>
       if chk_terminated (s_chk s) || (k_timeout k <=? s_delay s) then Some (set_main s MNeeds) else None
@@ -288,11 +282,11 @@ Definition step_main (k : config) (s : state) : option state :=
       | Some true => Some (set_main s MNotice)
       | Some false => Some (set_main s MReturn)
       | None =>                                                            (* uncaught exception: traceback, status 1 *)
-          Some (shutdown k s 1 (s_err s ++ [EMainTraceback]))
+          Some (mkState (MExit 1) (s_chk s) (s_latest s) (s_finished s) (s_now s) (s_delay s) (s_out s) (s_err s ++ [EMainTraceback]))
       end
   | MNotice =>
       Some (mkState MReturn (s_chk s) (s_latest s) (s_finished s) (s_now s) (s_delay s) (s_out s ++ [ONotice]) (s_err s))
-  | MReturn => Some (shutdown k s 0 (s_err s))
+  | MReturn => Some (set_main s (MExit 0))
   | MExit _ => None
   end.
 
@@ -333,25 +327,6 @@ Inductive reach (k : config) : state -> Prop :=
   | reach_step : forall s a s', reach k s -> step k s a = Some s' -> reach k s'.
 
 Definition stuck (k : config) (s : state) : Prop := forall a, step k s a = None.
-
-(* the region of the known finding: configurations in which the checker thread ends by an unhandled exception (and so
-   may hold stderr when the main thread shuts the interpreter down) *)
-Definition reply_kills (r : reply) : bool :=
-  match r with
-  | ROtherExc => true
-  | RRequestExc => false
-  | RResponse false _ => false
-  | RResponse true None => false
-  | RResponse true (Some JNonDict) => true
-  | RResponse true (Some (JDict (TagText (Some _)))) => false
-  | RResponse true (Some (JDict _)) => true
-  end.
-Definition in_finding_region (k : config) : bool :=
-  k_daemon k && is_some (s_after (k_server k)) && reply_kills (s_reply (k_server k)).
-(* ... and the main thread does not wait for the end of the checker: the sub-command did not return normally (for a
-   returning command the join must have timed out first, which no test behaviour of the harness provokes) *)
-Definition known_abort_region (k : config) : bool :=
-  in_finding_region k && match c_end (k_cmd k) with Returns => false | Raises _ => true end.
 
 (* --------------------------------------------------------------------- a deterministic (eager) scheduler *)
 
